@@ -114,13 +114,34 @@ theorem allCloseElem_missing (m r x : Rat) :
     allCloseElem m r (((0 : Rat) / 1), (vpTolSpacing + ((0 : Rat) / 1) / x)) = decide (rabs (m - r) ≤ tolSpacing) := by
   simp [allCloseElem, tolSpacing, vpTolSpacing]
 
-/-- the `allow_missing_positions` branch, written with the regenerated multiple, tolerance and constants -/
+/-- one pass of the refinement loop of the estimated spacing, from the regenerated ratio `distance / spacing`, guard
+`n_spacings > 0` and update `distance / n_spacings` (hand-written: Python's `round` = half to even, `roundHalfEven`) -/
+def refineStepGen (s D : Rat) : Rat :=
+  match vpRefineRatio D s with
+  | .error _ => s
+  | .ok q =>
+    match vpRefineGuard (roundHalfEven q), vpRefined D (roundHalfEven q) with
+    | .ok true, .ok v => v
+    | _, _ => s
+
+/-- the estimate without a hint: smallest gap of the sorted distinct distances (hand-written: `np.diff`, `min`), refused
+when 0 within the regenerated `vpTolEq`, refined by the regenerated loop body over `sorted[1:] − sorted[0]` (the iterable
+is checked textually by the target) -/
+def estimateSpacingGen (du : List Rat) : Option Rat :=
+  match minGap du with
+  | none => none
+  | some gp =>
+    if rabs gp ≤ vpTolEq then none else
+    match sortRat du with
+    | [] => none
+    | lo :: rest => some ((rest.map (fun d => d - lo)).foldl refineStepGen gp)
+
+/-- the `allow_missing_positions` branch, written with the regenerated refinement, multiple, tolerance and constants
+(hand-written remainder: `np.unique` / `len` of the distinct-multiples test = `allDistinct`) -/
 def regularMissingGen (ds du : List Rat) (dmin dmax : Rat) (hint : Option Rat) (perp : Bool) : Option (Rat × List Int) :=
   let spacing? : Option Rat := match hint with
     | some h => some h
-    | none => match minGap du with
-      | none => none
-      | some gp => if rabs gp ≤ vpTolEq then none else some gp
+    | none => estimateSpacingGen du
   match spacing? with
   | none => none
   | some sp =>
@@ -128,17 +149,38 @@ def regularMissingGen (ds du : List Rat) (dmin dmax : Rat) (hint : Option Rat) (
     match vpMissingTol sp with
     | .error _ => none
     | .ok tol =>
-      let mult := ds.map (fun d => match vpMultiple d dmin dmax sp with | .ok m => m | .error _ => 0)
-      let regular := mult.all (fun m => allCloseElem m (roundHalfEven m : Rat) tol)
+      let mlt := fun d => match vpMultiple d dmin dmax sp with | .ok m => m | .error _ => 0
+      let mult := ds.map mlt
+      let regular := mult.all (fun m => allCloseElem m (roundHalfEven m : Rat) tol) &&
+        allDistinct (du.map (fun d => roundHalfEven (mlt d)))
       if regular && perp then some (rabs sp, mult.map roundHalfEven) else none
 
-/-- **bridge 2a**: the gaps-allowed branch of the model uses the regenerated multiple `(d − d.min())/spacing`, the
-regenerated tolerance pair of the regularity test and the regenerated zero-gap tolerance -/
+theorem refineStep_eq_gen (s D : Rat) :
+    (if 0 < roundHalfEven (D / s) then D / ((roundHalfEven (D / s) : Int) : Rat) else s) = refineStepGen s D := by
+  unfold refineStepGen vpRefineRatio vpRefineGuard vpRefined
+  simp only
+  by_cases h : 0 < roundHalfEven (D / s)
+  · have : decide (roundHalfEven (D / s) > 0) = true := by simpa using h
+    rw [if_pos h, this]
+  · have : decide (roundHalfEven (D / s) > 0) = false := by simpa using h
+    rw [if_neg h, this]
+
+theorem estimateSpacing_eq_gen (du : List Rat) : estimateSpacing du = estimateSpacingGen du := by
+  unfold estimateSpacing estimateSpacingGen refineSpacing
+  have hte : tolEq = vpTolEq := tolerances_eq_gen.2.1
+  rw [hte]
+  have hf : (fun (s D : Rat) => if 0 < roundHalfEven (D / s) then D / ((roundHalfEven (D / s) : Int) : Rat) else s) = refineStepGen := by
+    funext s D; exact refineStep_eq_gen s D
+  rw [hf]
+  rfl
+
+/-- **bridge 2a**: the gaps-allowed branch of the model uses the regenerated refinement of the estimated spacing (ratio,
+guard, update of the loop body), the regenerated multiple `(d − d.min())/spacing`, the regenerated tolerance pair of the
+regularity test and the regenerated zero-gap tolerance -/
 theorem regularMissing_eq_gen (ds du : List Rat) (dmin dmax : Rat) (hint : Option Rat) (perp : Bool) :
     regularMissing ds du dmin hint perp = regularMissingGen ds du dmin dmax hint perp := by
   unfold regularMissing regularMissingGen
-  have hte : tolEq = vpTolEq := tolerances_eq_gen.2.1
-  rw [hte]
+  rw [estimateSpacing_eq_gen]
   simp only [vpMissingTol, vpMultiple, allCloseElem_missing]
   rfl
 
